@@ -61,6 +61,7 @@ kept in `QState`.  Each violation kind corresponds to one clause of the property
 * `af-optimistic` / `ae-optimistic` — the flag is off although the fill level is past the level applied at the
                               flag's last clock edge                                          (`almostFull_not_optimistic`, `almostEmpty_not_optimistic`)
 * `not-exposed`             — the oldest held item has seen `lw-1` pop edges after its acceptance and `empty` is still on (`liveness`)
+* `push-size-optimistic` / `pop-size-optimistic` — `pushSize` below / `popSize` above the number of items held after the edge
 -/
 structure QState (α : Type) where
   queue : List (α × Nat) := []   -- held items, oldest first, with the number of pop edges seen since acceptance
@@ -70,43 +71,48 @@ structure QState (α : Type) where
   yld : Nat := 0
 
 def qcheck [BEq α] (N M lw : Nat) (q : QState α) (e : Ev α) (o : Out α) : List String × QState α :=
-  if e.pushRst || e.popRst then
-    -- while a reset is asserted no request may be made (harness obligation) and nothing is checked
-    ((if o.pushValid || o.popValid then ["valid-during-reset"] else []), q)
-  else
-    let fill := q.queue.length
-    let v1 := if (o.pushValid && !e.pushReq) || (o.popValid && !e.popReq) then ["valid-without-request"] else []
-    let v2 := if e.pushClk && o.pushValid && fill ≥ N then ["accept-when-full"] else []
-    let v3 := if e.popClk && o.popValid then
-                match q.queue with
-                | [] => ["yield-when-empty"]
-                | (x, _) :: _ => if x == o.peek then [] else ["wrong-item"]
-              else []
-    let v4 := if !o.empty then
-                match q.queue with
-                | [] => ["exposes-nothing"]
-                | (x, _) :: _ => if x == o.peek then [] else ["wrong-item-exposed"]
-              else []
-    let v5 := match q.afLvl with
-              | some l => if l ≤ N && !o.af && !(fill + l < N) then ["af-optimistic"] else []
-              | none => []
-    let v6 := match q.aeLvl with
-              | some l => if !o.ae && !(l < fill) then ["ae-optimistic"] else []
-              | none => []
-    let v7 := match q.queue with
-              | (_, age) :: _ => if o.empty && age + 1 ≥ lw then ["not-exposed"] else []
-              | [] => []
-    let yields := e.popClk && o.popValid
-    let accepts := e.pushClk && o.pushValid
-    let q1 := if yields then q.queue.drop 1 else q.queue
-    let q2 := if e.popClk then q1.map (fun (x, a) => (x, a + 1)) else q1
-    let q3 := if accepts then q2 ++ [(e.data, 0)] else q2
-    (v1 ++ v2 ++ v3 ++ v4 ++ v5 ++ v6 ++ v7,
-     { queue := q3
-       afLvl := if e.pushClk then some e.afLevel else q.afLvl
-       aeLvl := if e.popClk then some (e.aeLevel % M) else q.aeLvl
-       acc := q.acc + (if accepts then 1 else 0)
-       yld := q.yld + (if yields then 1 else 0) })
+  -- All flag / level / size outputs are checked in EVERY cycle from power-on, including the cycles in which a reset is
+  -- asserted (the queue is empty then; the harness makes no request) and the first cycle after reset release.
+  -- While the flag register has not yet seen a non-reset edge of its clock it holds its reset value; it is then read
+  -- against the level input applied in the cycle of observation (`afLvl` / `aeLvl` = none).
+  let inRst := e.pushRst || e.popRst
+  let fill := q.queue.length
+  let v0 := if inRst && (o.pushValid || o.popValid) then ["valid-during-reset"] else []
+  let v1 := if (o.pushValid && !e.pushReq) || (o.popValid && !e.popReq) then ["valid-without-request"] else []
+  let v2 := if e.pushClk && o.pushValid && fill ≥ N then ["accept-when-full"] else []
+  let v3 := if e.popClk && o.popValid then
+              match q.queue with
+              | [] => ["yield-when-empty"]
+              | (x, _) :: _ => if x == o.peek then [] else ["wrong-item"]
+            else []
+  let v4 := if !o.empty then
+              match q.queue with
+              | [] => ["exposes-nothing"]
+              | (x, _) :: _ => if x == o.peek then [] else ["wrong-item-exposed"]
+            else []
+  let afl := q.afLvl.getD e.afLevel
+  let v5 := if afl ≤ N && !o.af && !(fill + afl < N) then ["af-optimistic"] else []
+  let ael := q.aeLvl.getD (e.aeLevel % M)
+  let v6 := if !o.ae && !(ael < fill) then ["ae-optimistic"] else []
+  let v7 := match q.queue with
+            | (_, age) :: _ => if o.empty && age + 1 ≥ lw then ["not-exposed"] else []
+            | [] => []
+  let yields := !inRst && e.popClk && o.popValid
+  let accepts := !inRst && e.pushClk && o.pushValid
+  -- size outputs (combinational, they already include this cycle's accepted push / pop): the push side must not
+  -- under-report, the pop side must not over-report what is held after this edge
+  let fillAfter := fill + (if accepts then 1 else 0) - (if yields then 1 else 0)
+  let v8 := if o.pushSize < fillAfter then ["push-size-optimistic"] else []
+  let v9 := if o.popSize > fillAfter then ["pop-size-optimistic"] else []
+  let q1 := if yields then q.queue.drop 1 else q.queue
+  let q2 := if e.popClk then q1.map (fun (x, a) => (x, a + 1)) else q1
+  let q3 := if accepts then q2 ++ [(e.data, 0)] else q2
+  (v0 ++ v1 ++ v2 ++ v3 ++ v4 ++ v5 ++ v6 ++ v7 ++ v8 ++ v9,
+   { queue := q3
+     afLvl := if e.pushClk then (if e.pushRst then none else some e.afLevel) else q.afLvl
+     aeLvl := if e.popClk then (if e.popRst then none else some (e.aeLevel % M)) else q.aeLvl
+     acc := q.acc + (if accepts then 1 else 0)
+     yld := q.yld + (if yields then 1 else 0) })
 
 end Gatery.C15
 
@@ -118,7 +124,9 @@ variable {α : Type}
 same cycle while nothing is held. `q.queue` ages count clock cycles. -/
 def scheck [BEq α] (N lw : Nat) (fall : Bool) (q : QState α) (rst inValid : Bool) (d : α) (outReady : Bool)
     (inReady outValid : Bool) (outData : α) : List String × QState α :=
-  if rst then ((if inValid then ["valid-during-reset"] else []), q)
+  if rst then
+    -- nothing is held while the reset is asserted: the output must not claim a beat
+    ((if inValid then ["valid-during-reset"] else []) ++ (if outValid then ["exposes-nothing"] else []), q)
   else
     let accept := inValid && inReady
     let yield := outValid && outReady
